@@ -10,7 +10,7 @@ func init() {
 	register(&propDef{
 		id: "C10", title: "Each watcher receives exactly one Terminated for a watched actor",
 		technique: "who-may-construct/who-may-call, per-iteration CFG rule on the notification loop, symmetric-update rule on the watch relation, lockset",
-		explanation: "Decides: (1) Terminated messages are constructed only in freeWatchers (local and remote watcher loops) and by the wire deserializer; freeWatchers is called from exactly one site, inside doStop, after PostStop, and doStop runs at most once per incarnation (runningState test under stopLocker, C06); (2) in the local loop every iteration tells Terminated to the watcher at most once, only when the watcher is running, and un-watches it right after, so a second pass would not find it; the loop ranges over the snapshot returned by tree.watchers; the remote loop sends one RemoteTell per remote watcher address; (3) tree.watchers returns a freshly allocated snapshot built under the read lock; addWatcher/removeWatcher update both directions of the watch relation (watchers of the watchee, watchees of the watcher) in one critical section.",
+		explanation: "Decides: (1) Terminated messages are constructed only in freeWatchers (local and remote watcher loops) and by the wire deserializer; freeWatchers is called from exactly one site, inside doStop, after PostStop, and doStop runs at most once per incarnation (runningState test under stopLocker, C06); (2) in the local loop every iteration tells Terminated to the watcher at most once, only when the watcher is running, and un-watches it right after, so a second pass would not find it; the loop ranges over the snapshot returned by tree.watchers; the remote loop sends one RemoteTell per remote watcher address; (3) tree.watchers returns a freshly allocated snapshot built under the read lock; addWatcher/removeWatcher update both directions of the watch relation (watchers of the watchee, watchees of the watcher) in one critical section. Added after seed C10a: for a local watchee UnWatch always removes the watch relation, independent of the watchee's state.",
 		assumptions: []string{"Watch/UnWatch racing the snapshot taken by freeWatchers", "delivery of the Terminated message itself (mailbox properties C02/C04)"},
 		minObl:     23,
 		run:        runC10,
